@@ -6,6 +6,7 @@
 -/
 import SymmModel.Driver.Codec
 import SymmModel.Model.Reshape
+import SymmModel.Model.Construct
 namespace SymmModel.Driver
 open Lean SymmModel
 
@@ -228,8 +229,53 @@ def evalStep (op : String) (ins : List Val) (p : Json) : StepRes := do
     let counts ← listOf getNat (← field p "counts")
     let (u', s', v') := applyCounts u s vh counts
     pure (pure [.arr u', .vec s', .arr v'])
+  | "from_dense", [v] =>
+    let d ← match v with
+      | .blk b => pure b
+      | _ => throw "from_dense expects a dense block"
+    let (sym?, fermi, charge, oddpos) ← ctorCommon p
+    let some sym := sym? | return .error Err.value
+    let maps ← listOf (listOf decCharge) (← field p "maps")
+    let duals ← listOf getBool (← field p "duals")
+    liftE (fromDense sym fermi d maps duals charge oddpos) (fun x => [.arr x])
+  | "from_blocks", [] =>
+    let (sym?, fermi, charge, oddpos) ← ctorCommon p
+    let some sym := sym? | return .error Err.value
+    let blocks ← listOf (fun b => do pure (← decSector (← field b "sector"), ← decBlk b)) (← field p "blocks")
+    let duals ← listOf getBool (← field p "duals")
+    liftE (fromBlocks sym fermi blocks duals charge oddpos) (fun x => [.arr x])
+  | "ctor", [] =>
+    let (sym?, fermi, charge, oddpos) ← ctorCommon p
+    let some sym := sym? | return .error Err.value
+    let blocks ← listOf (fun b => do pure (← decSector (← field b "sector"), ← decBlk b)) (← field p "blocks")
+    let indices ← listOf decIndex (← field p "indices")
+    liftE (construct sym fermi indices charge blocks oddpos) (fun x => [.arr x])
+  | "from_fill", [] =>
+    let (sym?, fermi, charge, oddpos) ← ctorCommon p
+    let some sym := sym? | return .error Err.value
+    let indices ← listOf decIndex (← field p "indices")
+    let fill (_ : Sector) (shp : List Nat) : Blk GRat :=
+      ⟨shp, ((List.range (prod shp)).map (fun (k : Nat) => (⟨((k : Int) + 1 : Int), 0⟩ : GRat))).toArray⟩
+    liftE (fromFillFn sym fermi indices charge fill oddpos) (fun x => [.arr x])
   | _, _ => throw s!"unknown op {op}/{ins.length}"
 where
+  /-- symmetry resolution shared by the constructors: `static` = the class's own symmetry
+      (absent for the generic classes), `symmetry` = the argument (absent when omitted) -/
+  ctorCommon (p : Json) : D (Option Sym × Bool × Option Charge × List (Int × Bool)) := do
+    let st ← optField p "static" decSym
+    let arg ← optField p "symmetry" decSym
+    let fermi ← boolField p "fermi" false
+    let charge ← optField p "charge" decCharge
+    let oddpos ← match fieldOpt p "oddpos" with
+      | none => pure []
+      | some oj => listOf (fun q => do
+          let a ← getArr q
+          match a.toList with
+          | [l, d] => pure (← getInt l, ← getBool d)
+          | _ => throw "bad oddpos entry") oj
+    match classSymmetry st arg with
+    | .ok s => pure (some s, fermi, charge, oddpos)
+    | .error _ => pure (none, fermi, charge, oddpos)
   binop (va vb : Val) (f : GRat → GRat → GRat) (m : Missing) : StepRes := do
     let a ← asArr va; let b ← asArr vb
     -- fermionic arrays sync both operands first (`FermionicArray._binary_blockwise_op`)
